@@ -69,9 +69,14 @@ def build_ext(verbose=False):
     if os.path.exists(stamp):
         return out
     os.makedirs(root, exist_ok=True)
-    for name in os.listdir(root):  # older hashes are deleted
-        if name != digest:
-            shutil.rmtree(os.path.join(root, name), ignore_errors=True)
+    import time
+    for name in os.listdir(root):  # stale builds of other source states are deleted (not ones a concurrent run may be using)
+        path = os.path.join(root, name)
+        try:
+            if name != digest and time.time() - os.path.getmtime(path) > 6 * 3600:
+                shutil.rmtree(path, ignore_errors=True)
+        except OSError:
+            pass
     tmp = out + '.tmp%d' % os.getpid()
     shutil.rmtree(tmp, ignore_errors=True)
     os.makedirs(tmp)
